@@ -1,7 +1,11 @@
 import IoraModel.Lemmas.TimingWheel
+import IoraModel.Lemmas.TimingWheelSat
+import IoraModel.Lemmas.TimingWheelRestart
 import IoraModel.Lemmas.TimerService
 import IoraModel.Lemmas.TimerHeap
 import IoraModel.Lemmas.TimerDrain
+import IoraModel.Lemmas.TimerSys
+import IoraModel.Lemmas.SteadyTimer
 import IoraModel.Gen.Timer
 /-!
 # C08 — Timers never fire early, twice, or after a successful cancel
@@ -214,6 +218,134 @@ valid id, and the entry is linked in the stopped wheel (it never fires). -/
 theorem W7_without_retest_witness :
     let x := Race.runSched false {} [false, true, true, true, false, false, false]
     x.t = .done ∧ x.s = .accepted ∧ x.stored = true := by decide
+
+/-! ### wheel, round 2 (c08w block): saturating deadline (FC08c) -/
+
+/-- **W8a (FC08c: the deadline computation never wraps).** For every clock value a `steady_clock::time_point` can hold
+(`0 ≤ now ≤ tpMax = 2^63 - 1` ns) and EVERY delay — `milliseconds::max()`, `milliseconds::min()`, 300 years — the deadline that
+`schedule`/`reschedule` store (`deadlineAfter`, the value `W3_not_early` shows every fired entry carries) is a time point between the
+epoch and `TimePoint::max()`, and `deadline - now'` is representable for every clock value `now'` a later `advance()`/`drain()` can read;
+it IS `now + delay` whenever that is a representable time point at or after the epoch, and otherwise (delay too large) lies in the last
+millisecond before `TimePoint::max()`.  This replaces the former assumption `now + delay < 2^63`. -/
+theorem W8_deadline_never_wraps (now d : Int) (h0 : 0 ≤ now) (h1 : now ≤ tpMax) :
+    (0 ≤ deadlineAfter now d ∧ deadlineAfter now d ≤ tpMax ∧
+      ∀ now', 0 ≤ now' → now' ≤ tpMax → -tpMax ≤ deadlineAfter now d - now' ∧ deadlineAfter now d - now' ≤ tpMax) ∧
+    (0 ≤ now + d * nsPerMs → now + d * nsPerMs ≤ tpMax → deadlineAfter now d = now + d * nsPerMs) ∧
+    (tpMax < now + d * nsPerMs → tpMax - nsPerMs < deadlineAfter now d) :=
+  ⟨deadlineAfter_bounds now d h0 h1, deadlineAfter_exact now d h0 h1, fun h => (deadlineAfter_saturates now d h0 h1 h).1⟩
+
+/-- **W8b (never early w.r.t. the REQUESTED deadline, no overflow assumption).** If the guard of `W3_not_early` lets an entry
+scheduled at `now` with delay `d ≥ 0` fire at clock `now'`, then `now'` is within one tick (+ the 1 ms granularity of the clamp)
+of `min(now + d, TimePoint::max())`: a timer asked for beyond the end of the clock's range cannot fire before the clock is
+within a tick and a millisecond of its end — in particular not "at once", as the unrepaired `Clock::now() + delay` made it. -/
+theorem W8_request_not_early (tick now d now' : Int) (h0 : 0 ≤ now) (h1 : now ≤ tpMax) (hd : 0 ≤ d)
+    (hg : deadlineAfter now d - now' ≤ tick * nsPerMs) :
+    min (now + d * nsPerMs) tpMax - now' < (tick + 1) * nsPerMs := by
+  have := (deadlineAfter_is_min now d h0 h1 hd).2
+  unfold nsPerMs at *
+  omega
+
+/-- non-vacuity / the witness of FC08c: `schedule(milliseconds::max())` at virtual clock 0 on the harness's epoch (30 days)
+stores a deadline 292 years ahead, and 40 on-time ticks (five level-0 revolutions) later nothing has fired -/
+example : (run ⟨10, 8, 2⟩ [.start 2592000000000000, .sched 2592000000000000 9223372036854775807]).1.entries.map (·.deadline) = [9223372036854000000] ∧
+          fired (run ⟨10, 8, 2⟩ ([.start 2592000000000000, .sched 2592000000000000 9223372036854775807] ++
+            (List.range 40).map (fun (i : Nat) => Op.adv (2592000000000000 + ((i : Int) + 1) * 10000000)))).2 = [] := by decide
+
+/-- **Gen conformance (wheel, round 2).** `schedule` takes its id with ONE atomic read-modify-write `_nextId.fetch_add(1, ..)` — the
+allocation sits outside `_wheelMutex`, so W1's "no id is handed out twice" holds for concurrent callers only because of this shape
+(a `load` followed by a `store` hands one id to two callers; harness op `mtsched`) — and nothing but `reset()` writes `_nextId`
+otherwise; `schedule`/`reschedule` compute the deadline with the saturating `deadlineAfter` (FC08c) whose body is the clamp
+`now + std::clamp(delay, -behind, ahead)` that `Wheel.deadlineAfter` mirrors; `reset()` asserts STOPPED, clears every entry, zeroes the tick counters, unsets `_lastAdvanceTime`,
+restarts the ids at 1 and publishes RESET, in that order; `clearAllEntries` empties the id map and every bucket of every level under
+`_wheelMutex`; `start()` leaves exactly CREATED and RESET. -/
+theorem G_wheel_shapes_r2 :
+    Gen.Timer.wheelIdAllocAtomic = true ∧ Gen.Timer.wheelDeadlineSaturates = true ∧ Gen.Timer.wheelDeadlineIsClamp = true ∧
+    Gen.Timer.wheelResetOrder = ["assert-STOPPED", "clearAllEntries", "currentTick=0", "lastAdvance=unset", "nextId=1", "state=RESET"] ∧
+    Gen.Timer.wheelClearOrder = ["lock", "freeEntry", "entryMap.clear", "head=null", "tail=null"] ∧
+    Gen.Timer.wheelStartFrom = ["CREATED", "RESET"] := by decide
+
+/-- **Gen conformance (KV store's TTL wheel).** The default geometry `KVStoreConfig` hands to the `TimingWheel` constructor
+(`ttlTickDuration`, `ttlTicksPerWheel`, `ttlNumWheels`, regenerated from kvstore.hpp) satisfies the constructor's preconditions
+`Cfg.Valid` — tick > 0, a power-of-two slot count (any exponent up to 64), at least one level — which is what `W0_mask_is_mod`
+needs for the model's `% slots` to be the code's `& _tickMask`.  The check runs this geometry in lockstep (GEOMETRIES takes it from
+the same generated values). -/
+theorem G_kv_wheel_geometry_valid :
+    (⟨Gen.Timer.kvWheelTickMs, Gen.Timer.kvWheelSlots, Gen.Timer.kvWheelLevels⟩ : Cfg).Valid := by
+  refine ⟨by decide, by decide, ?_⟩
+  have h : (List.range 65).any (fun k => Gen.Timer.kvWheelSlots == 2 ^ k) = true := by decide
+  obtain ⟨k, _, hk⟩ := List.any_eq_true.mp h
+  exact ⟨k, by simpa using hk⟩
+
+/-! ### wheel, round 2 (c08w block): restart — `stop()`/`drain()` → `reset()` → `start()`
+
+`reset()` restarts the ids at 1, so ids are unique only within an EPOCH (between two successful `reset()` calls).  A life of one wheel
+object is a list `rops : List ROp` of ordinary operations and `reset`s (`Lemmas/TimingWheelRestart.lean`); `(rrun c rops).h` is the
+`(op, answer)` history of the CURRENT epoch, `(rrun c rops).w` the wheel.  Every prefix of a life is a life, so a statement about "the
+current epoch of every life" is a statement about every epoch. -/
+
+/-- **WR0 (`reset()` drops nothing, leaves nothing).** In every reachable life a STOPPED wheel — the only state in which `reset()` may be
+called — holds no entry and does not accept: everything scheduled in the closing epoch has already left by a route W1 accounts for
+(fired, cancelled with `true`, drained, cleared by `stop()`), so `reset()`'s own clear never loses a timer silently.  And a successful
+`reset()` leaves no entry linked, every tick counter 0, `_lastAdvanceTime` unset, the next id 1, state RESET, still not accepting:
+nothing from before the reset is linked afterwards. -/
+theorem WR0_reset_drops_nothing (c : Cfg) (rops : List ROp) (hs : (rrun c rops).w.state = .stopped) :
+    ((rrun c rops).w.entries = [] ∧ (rrun c rops).w.accepting = false) ∧
+    (rrun c (rops ++ [.reset])).w.entries = [] ∧ (rrun c (rops ++ [.reset])).h = [] ∧ (rrun c (rops ++ [.reset])).w.nextId = 1 ∧
+    (rrun c (rops ++ [.reset])).w.lastAdvance = none ∧ (∀ l, curAt (rrun c (rops ++ [.reset])).w l = 0) ∧
+    (rrun c (rops ++ [.reset])).w.state = .reset ∧ (rrun c (rops ++ [.reset])).w.accepting = false := by
+  have g := (good_rrun c rops).stoppedEmpty hs
+  have hr : rrun c (rops ++ [.reset]) = ⟨reset (rrun c rops).w, [], (rrun c rops).epochs + 1⟩ := by
+    simp only [rrun, rrunFrom, List.foldl_append, List.foldl_cons, List.foldl_nil, rstep]
+    simp only [rrun, rrunFrom] at hs
+    simp [hs]
+  obtain ⟨h1, h2, h3, h4, _, h6, h7⟩ := reset_clears (rrun c rops).w hs
+  rw [hr]
+  exact ⟨g, h1, rfl, h2, h3, h4, h6, h7.trans g.2⟩
+
+/-- **WR1 (conservation and at-most-once in every epoch, across any number of restarts).** W1 and W1' for the current epoch of every
+life: pending ids + ids that left = ids issued in this epoch, no id issued twice in this epoch, no id fired twice in this epoch, a fired
+id was issued in this epoch and is no longer pending. -/
+theorem WR1_every_epoch (c : Cfg) (rops : List ROp) :
+    (ids (rrun c rops).w ++ left (rrun c rops).h).Perm (issued (rrun c rops).h) ∧ (issued (rrun c rops).h).Nodup ∧
+    (fired (rrun c rops).h).Nodup ∧ ∀ a ∈ fired (rrun c rops).h, a ∈ issued (rrun c rops).h ∧ a ∉ ids (rrun c rops).w :=
+  ⟨(inv_rrun c rops).perm, (inv_rrun c rops).nodup, (inv_rrun c rops).fired_nodup.1, (inv_rrun c rops).fired_nodup.2⟩
+
+/-- **WR1' (ids DO restart).** Uniqueness of ids over the whole life of a wheel object is false: after stop → reset → start the first
+`schedule` returns id 1 again.  A caller that keeps an id across `reset()` can cancel a different timer with it. -/
+theorem WR1_ids_restart_witness :
+    (step ⟨10, 8, 2⟩ (rrun ⟨10, 8, 2⟩ [.op (.start 0), .op (.sched 0 50)]).w (.sched 0 70)).2 matches .id 2 ∧
+    (step ⟨10, 8, 2⟩ (rrun ⟨10, 8, 2⟩ [.op (.start 0), .op (.sched 0 50), .op .stop, .reset, .op (.start 5)]).w (.sched 5 70)).2 matches .id 1 := by
+  decide
+
+/-- **WR3 (not early, across restarts).** In every life, every entry `advance()` hands to `fireCallback` carries exactly the deadline that
+the latest successful `schedule`/`reschedule` of its id asked for IN THE CURRENT EPOCH (`lastDeadline` of the current epoch's history),
+and `now ≥ deadline − tick`: an id issued after a restart never fires on a deadline that belonged to its namesake of an earlier epoch. -/
+theorem WR3_not_early_across_restarts (c : Cfg) (hc : 0 ≤ c.tick) (rops : List ROp) (now : Int) :
+    ∀ e ∈ (advance c (rrun c rops).w now).2,
+      lastDeadline (rrun c rops).h e.id = some e.deadline ∧ e.deadline - now ≤ c.tick * nsPerMs :=
+  (inv_rrun c rops).not_early hc now
+
+/-- **WR2 (cancel across restarts).** In every life `cancel(id) = true` iff the id is pending now (W2a holds in every state), and
+`cancel(id) = false` means the id was not issued in the current epoch or has left in it: an id that was pending when an earlier epoch was
+stopped is not cancellable after the restart unless the new epoch issued it again. -/
+theorem WR2_false_means_gone_in_epoch (c : Cfg) (rops : List ROp) (id : Nat) (h : (cancel (rrun c rops).w id).2 = false) :
+    id ∉ issued (rrun c rops).h ∨ id ∈ left (rrun c rops).h := by
+  have hn : id ∉ ids (rrun c rops).w := fun hp => by
+    rw [(W2_cancel_iff_pending _ id).mpr hp] at h; cases h
+  by_cases hi : id ∈ issued (rrun c rops).h
+  · right
+    have := (inv_rrun c rops).perm.symm.subset hi
+    exact (List.mem_append.mp this).resolve_left hn
+  · exact Or.inl hi
+
+/-- non-vacuity: two epochs; id 1 of the first epoch (deadline 50 ms) is pending at `stop()`; id 1 of the second epoch is scheduled at
+60 ms for 200 ms later; the ticks at 70 … 290 ms (all past the OLD deadline) fire nothing, the tick at 300 ms fires it (deadline 260 ms; filed on level 1, it comes down with the
+next cascade) -/
+example :
+    let pre : List ROp := [.op (.start 0), .op (.sched 0 50), .op .stop, .reset, .op (.start 60000000), .op (.sched 60000000 200)]
+    fired (rrun ⟨10, 8, 2⟩ (pre ++ (List.range 23).map (fun (i : Nat) => ROp.op (.adv (70000000 + (i : Int) * 10000000))))).h = [] ∧
+    fired (rrun ⟨10, 8, 2⟩ (pre ++ (List.range 24).map (fun (i : Nat) => ROp.op (.adv (70000000 + (i : Int) * 10000000))))).h = [1] ∧
+    (rrun ⟨10, 8, 2⟩ pre).epochs = 1 := by decide
 
 /-! ## Timer service
 
@@ -501,5 +633,260 @@ theorem S6_refused (L : Limits) (s : Svc) (now x : Int) (h : s.accepting = false
   simp [scheduleAt, schedulePeriodic, h]
 
 end Service
+
+/-! ## Second layer: restart (`stop → reset → start`), wake-up plumbing, concurrent `scheduleAt` -/
+
+section Sys
+open Iora.Tsvc Iora.Tsys
+
+/-- **Gen conformance (second layer).** `programTimerfd` bumps a zero `it_value` to 1 ns; `scheduleAt`, `schedulePeriodic`, `cancel`,
+`drain` and `stop` call `poke()` after their locked section; `reset()` clears `_records`, `_periodicTimers`, `_heap` and restarts
+`_nextId` at 0 (seeded change C08-d drops the heap); `stop()`'s internal drain is `drain(5000)`. -/
+theorem G_sys_shapes :
+    Gen.Timer.svcTimerfdZeroGuard = true ∧ Gen.Timer.svcTimerfdZeroNs = 1 ∧
+    Gen.Timer.svcPokeSites = ["scheduleAt", "schedulePeriodic", "cancel", "drain", "stop"] ∧
+    Gen.Timer.svcResetClears = ["records", "periodic", "heap", "nextId"] ∧ Gen.Timer.svcStopDrainMs = 5000 := by decide
+
+/-- **R1 (every epoch is a fresh service).** For EVERY history of the restartable service — any interleaving of first-layer steps, pokes,
+loop wake-ups, `reset()` and `start()`, any number of restarts — outside the Reset state the state and the history of the current epoch
+are exactly a run of the first-layer model from the constructor's state.  Hence every theorem about `Tsvc.run` (S1–S6) holds in every
+epoch (`R_transfer`). -/
+theorem R_epoch_is_fresh_run (L : Limits) (ops : List Tsys.Op) (h : (Tsys.run L ops).isReset = false) :
+    ∃ sops, Tsvc.run L sops = ((Tsys.run L ops).s, (Tsys.run L ops).hist) := by
+  rcases Tsys.refines L ops with ⟨_, r⟩ | ⟨h1, _⟩
+  · exact r
+  · rw [h] at h1; cases h1
+
+/-- **R2 (transfer).** Whatever holds of every first-layer run holds of the current epoch of every history with restarts. -/
+theorem R_transfer (L : Limits) (P : Svc × Tsvc.Hist → Prop) (hP : ∀ sops, P (Tsvc.run L sops)) (ops : List Tsys.Op)
+    (h : (Tsys.run L ops).isReset = false) : P ((Tsys.run L ops).s, (Tsys.run L ops).hist) := by
+  obtain ⟨sops, hs⟩ := R_epoch_is_fresh_run L ops h
+  rw [← hs]; exact hP sops
+
+/-- **R3 (S2 across restarts: an id issued after a restart never fires at a deadline of an earlier epoch).** In every history with
+restarts, every invocation the loop collects is due (`tp ≤ now`) and `tp = t0 + k·iv` where `(t0, iv)` is what the caller asked for
+IN THE CURRENT EPOCH (`reqOf` of the epoch's own history: a request of an earlier epoch for the same numeric id does not count). -/
+theorem R_S2_across_restarts (L : Limits) (ops : List Tsys.Op) (h : (Tsys.run L ops).isReset = false) (now : Int) (atExit : Bool) :
+    ∀ e ∈ (collect (Tsys.run L ops).s now atExit).2.1,
+      e.tp ≤ now ∧ e.tp = e.t0 + e.k * e.iv ∧ reqOf (Tsys.run L ops).hist e.id = some (e.t0, e.iv) :=
+  R_transfer L (fun p => ∀ e ∈ (collect p.1 now atExit).2.1, e.tp ≤ now ∧ e.tp = e.t0 + e.k * e.iv ∧ reqOf p.2 e.id = some (e.t0, e.iv))
+    (fun sops => S2_collected_is_due L sops now atExit) ops h
+
+/-- **R4 (S1 and S3 across restarts).** In the current epoch of every history with restarts: collected = started + skipped + waiting with
+no (id, firing) twice; and after `cancel(id) = true` no handler of that id starts in any first-layer continuation. -/
+theorem R_S1_S3_across_restarts (L : Limits) (ops : List Tsys.Op) (h : (Tsys.run L ops).isReset = false) :
+    ((started (Tsys.run L ops).hist ++ skipped (Tsys.run L ops).hist ++ (Tsys.run L ops).s.ready).Perm (collected (Tsys.run L ops).hist) ∧
+     ((started (Tsys.run L ops).hist).map ekey).Nodup) ∧
+    ∀ id rest, (Tsvc.cancel (Tsys.run L ops).s id).2 = true →
+      ∀ e ∈ started (Tsvc.trace L (Tsvc.cancel (Tsys.run L ops).s id).1 rest), e.id ≠ id :=
+  R_transfer L (fun p => ((started p.2 ++ skipped p.2 ++ p.1.ready).Perm (collected p.2) ∧ ((started p.2).map ekey).Nodup) ∧
+      ∀ id rest, (Tsvc.cancel p.1 id).2 = true → ∀ e ∈ started (Tsvc.trace L (Tsvc.cancel p.1 id).1 rest), e.id ≠ id)
+    (fun sops => ⟨⟨(S1_collected_exactly_once L sops).1, (S1_collected_exactly_once L sops).2.2⟩,
+                  fun id rest hc => S3_cancelled_never_starts L sops id rest hc⟩) ops h
+
+/-- **R5.** `reset()` followed by `start()` on a reachable Stopped service (no `drain()` still in progress) leaves EXACTLY the
+constructor's state: no record, no periodic entry, no heap item, no closed guard, `_nextId = 0` — nothing of the old epoch survives. -/
+theorem R_reset_start_is_constructor_state (L : Limits) (sops : List Tsvc.Op) (hl : (Tsvc.run L sops).1.life = .stopped)
+    (hd : (Tsvc.run L sops).1.dpc = .idle) : startSvc (resetSvc (Tsvc.run L sops).1) = {} :=
+  Tsys.reset_start_fresh _ (Tsvc.inv_run L sops).1 hl hd
+
+/-- non-vacuity of R1–R5: a complete stop (a cancelled timer's heap item and a far-future timer are left behind), `reset()`, `start()`,
+a new timer: it gets id 1 again and the heap holds only the new item -/
+example :
+    let y := Tsys.run ⟨100, 10, 86400000000000⟩ [.svc (.schedAt 0 4000000), .svc (.cancel 1), .svc (.schedAt 0 9000000000), .svc .drainGate,
+      .svc (.drainSweep 0 5000000000), .svc .drainDone, .svc .stopFlag, .svc .stopHalt, .svc (.collect 1 true), .svc .loopExit, .svc .stopFinish,
+      .reset, .start, .svc (.schedAt 5 15000000)]
+    y.isReset = false ∧ y.epoch = 1 ∧ y.s.heap = [⟨15000000, 1⟩] ∧ y.s.records.map (·.id) = [1] := by decide
+
+/-- **On record (seeded change C08-d).** A `reset()` that does not clear `_heap` (clears = records, periodic, nextId): after the same
+restart the heap still holds the OLD item `(4 ms, id 1)`; the new timer — id 1 again, due at 15 ms — is collected at 4 ms. -/
+theorem R_without_heap_clear_witness :
+    let s0 := (Tsvc.run ⟨100, 10, 86400000000000⟩ [.schedAt 0 4000000, .cancel 1, .drainGate, .drainSweep 0 5000000000, .drainDone, .stopFlag, .stopHalt,
+      .collect 1 true, .loopExit, .stopFinish]).1
+    let s1 := startSvc (resetSvcWith ["records", "periodic", "nextId"] s0)
+    let s2 := (scheduleAt ⟨100, 10, 86400000000000⟩ s1 5 15000000).1
+    (collect s2 4000000 false).2.1.map (fun e => (e.id, e.tp)) = [(1, 15000000)] := by decide
+
+/-- **WK1 (wake-up invariant).** For EVERY history: while the loop thread sleeps in `epoll_wait` and the heap is not empty, a wake-up is
+pending (`poked`: the eventfd is readable), or owed (a client thread is between its locked section and its `poke()`), or the timerfd is
+armed no later than the heap top's time point — or 1 ns after the clock value `programTimerfd` read, when the top was already due then
+(the zero guard).  And the eventfd is closed only after the loop thread has been joined. -/
+theorem WK_parked_has_wakeup (L : Limits) (ops : List Tsys.Op) (hp : (Tsys.run L ops).lpc = .parked) (t : HeapItem)
+    (ht : (Tsys.run L ops).s.heap.head? = some t) :
+    (Tsys.run L ops).poked = true ∨ 0 < (Tsys.run L ops).owed ∨
+    ∃ a, (Tsys.run L ops).armed = some a ∧ (a ≤ t.tp ∨ a ≤ (Tsys.run L ops).armNow + 1) :=
+  (Tsys.winv_run L ops).wk hp t ht
+
+/-- **WK2 (a due record wakes the loop: never silently lost).** For every history: if the loop thread sleeps in `epoll_wait`, no client
+thread still owes its `poke()`, and some record (live or not) has `tp ≤ now` at a clock value `now` later than the one the loop armed
+with, then `epoll_wait` returns: the eventfd is readable or the timerfd has expired.  (With S5b/S3c the pass that follows hands every
+live due record over.) -/
+theorem WK_due_record_wakes (L : Limits) (ops : List Tsys.Op) (hr : (Tsys.run L ops).isReset = false) (hp : (Tsys.run L ops).lpc = .parked)
+    (ho : (Tsys.run L ops).owed = 0) (now : Int) (hn : (Tsys.run L ops).armNow < now)
+    (r : Rec) (hm : r ∈ (Tsys.run L ops).s.records) (hdue : r.tp ≤ now) :
+    wakeEnabled (Tsys.run L ops) now = true := by
+  obtain ⟨sops, hs⟩ := R_epoch_is_fresh_run L ops hr
+  have hs1 : (Tsvc.run L sops).1 = (Tsys.run L ops).s := by rw [hs]
+  have w := (Tsvc.inv_run L sops).1
+  have ok := hok_run L sops
+  rw [hs1] at w ok
+  obtain ⟨t, ht, hle⟩ := Tsys.top_le_record w ok hm
+  unfold wakeEnabled
+  rcases WK_parked_has_wakeup L ops hp t ht with h | h | ⟨a, ha, hb⟩
+  · simp [h]
+  · omega
+  · have : a ≤ now := by rcases hb with hb | hb <;> omega
+    simp [ha, expired, this]
+
+/-- non-vacuity of WK2, the window of hand mutant A: timer 1's handler runs while timer 2 comes due; the loop arms at 3 ms with the top
+(2 ms) already due: the timerfd is programmed for 3 ms + 1 ns (not disarmed), and it wakes the loop -/
+example :
+    let y := Tsys.run ⟨100, 10, 86400000000000⟩ [.svc (.schedAt 0 1000000), .poke, .svc (.schedAt 0 2000000), .poke, .arm 0, .wake 1000000,
+      .svc (.collect 1000000 false), .svc .hstart, .svc .hend, .arm 3000000]
+    y.lpc = .parked ∧ y.poked = false ∧ y.owed = 0 ∧ y.armed = some 3000001 ∧ wakeEnabled y 3000001 = true := by decide
+
+/-- **On record (hand mutant A of the review).** Without the zero guard a heap top that is already due programs `it_value = 0`, which
+DISARMS the timerfd: the loop sleeps with a due timer and nothing to wake it. -/
+theorem WK_without_zero_guard_witness (now tp : Int) (id : Nat) (h : tp ≤ now) :
+    armValueWith false 1 now (some ⟨tp, id⟩) = none ∧ armValueWith true 1 now (some ⟨tp, id⟩) = some (now + 1) := by
+  have : ¬ tp > now := by omega
+  simp [armValueWith, this]
+
+/-- **S6c (concurrent `scheduleAt`).** `scheduleAt` tests `_accepting` lock-free, then takes `_mutex` and tests it AGAIN: whatever other
+threads did in between (`rest`: any steps), once `stop()` has returned the locked section stores nothing and answers 0 — a timer is
+refused, never accepted by a stopped service.  And the two halves executed back to back are `scheduleAt`. -/
+theorem S6_concurrent (L : Limits) (ops rest : List Tsvc.Op) (tp : Int) (h : (stopFinish (Tsvc.run L ops).1).2 = true) (hist : Tsvc.Hist) :
+    scheduleAtLocked L (Tsvc.runFrom L (stopFinish (Tsvc.run L ops).1).1 hist rest).1 tp =
+      ((Tsvc.runFrom L (stopFinish (Tsvc.run L ops).1).1 hist rest).1, 0) := by
+  have := ((S4_after_stop L ops rest h).2 hist).2
+  simp [scheduleAtLocked, this]
+
+theorem S6_split (L : Limits) (s : Svc) (now tp : Int) :
+    scheduleAt L s now tp = if scheduleAtPre L s now tp then scheduleAtLocked L s tp else (s, 0) := by
+  unfold scheduleAt scheduleAtPre scheduleAtLocked
+  cases s.accepting <;> by_cases h : tp - now > L.maxTimeoutNs <;> simp [h]
+
+/-- non-vacuity of S6c: the racing thread passes the lock-free test on the running service; a complete `stop()` follows; the locked
+section then refuses -/
+example :
+    scheduleAtPre ⟨100, 10, 86400000000000⟩ ({} : Svc) 0 5 = true ∧
+    (stopFinish (Tsvc.run ⟨100, 10, 86400000000000⟩ [.drainGate, .drainSweep 0 5000000000, .drainDone, .stopFlag, .stopHalt, .collect 1 true, .loopExit]).1).2 = true := by
+  decide
+
+end Sys
+
+/-! ## SteadyTimer (as repaired by FC08b) -/
+
+section SteadyT
+open Iora.Tsvc Iora.Steady
+
+/-- **ST1 (a successful cancel is final).** For every history of the SteadyTimer layer (service steps of any thread, arms, re-arms and
+cancels of any number of SteadyTimer objects): if `SteadyTimer[i].cancel()` answers `true` for the wait with service id `tok`, then in
+EVERY continuation the user's handler of that wait never starts — whether the record was still pending (the service-level cancel
+succeeded) or had already been collected by the loop thread (the wrapper finds the shared state `Canceled`). -/
+theorem ST_cancel_true_never_starts (L : Limits) (ops : List Steady.Op) (i tok : Nat) (rest : List Steady.Op)
+    (ht : getTok (Steady.run L ops) i = some tok) (h : (Steady.cancel (Steady.run L ops) i).2 = true) :
+    tok ∉ userStarted (Steady.trace L (Steady.cancel (Steady.run L ops) i).1 rest) := by
+  have r := reach_run L ops
+  apply never_trace
+  have hg : Gen.Timer.steadyCancelReportsSuppressed = true := by decide
+  have hle : tok ≤ (Steady.run L ops).s.nextId := r.kb tok (r.tk i tok ht)
+  unfold Steady.cancel at h ⊢
+  rw [hg] at h ⊢
+  have hs : (Steady.cancelWith true (Steady.run L ops) i).1.s = (Tsvc.cancel (Steady.run L ops).s tok).1 := by
+    rw [cancel_s, ht]
+  by_cases hsup : armState (Steady.run L ops).arms tok = some .armed
+  · left
+    refine ⟨?_, by rw [cancel_nextId]; exact hle, kb_cancel _ i _ r.kb⟩
+    simp only [Steady.cancelWith, ht, hsup, beq_self_eq_true, if_true]
+    exact armState_setArm_same _ tok _ _ hsup
+  · right
+    have hok : (Tsvc.cancel (Steady.run L ops).s tok).2 = true := by
+      simp only [Steady.cancelWith, ht, if_true, Bool.or_eq_true, beq_iff_eq] at h
+      rcases h with h | h
+      · exact h
+      · exact absurd h hsup
+    obtain ⟨sops, hso⟩ := r.ref
+    obtain ⟨w, hi⟩ := Tsvc.inv_run L sops
+    rw [hso] at w hi
+    obtain ⟨d, dle⟩ := cancel_true_dead _ _ tok w hi hok
+    exact ⟨by rw [hs]; exact d, by rw [hs]; exact dle⟩
+
+/-- **ST2 (a failed cancel).** `cancel() = false` means: nothing is armed (no token: never armed, refused by the service, or cancelled
+before), or the wait's shared state is no longer `Armed` — the wrapper has STARTED the user's handler (it ran or is running, once: S1), or
+an earlier `cancel()` had won — and the service-level cancel found no live record.  In particular never "false, and the handler is
+silently suppressed" (the FC08b defect). -/
+theorem ST_cancel_false_means_not_armed (L : Limits) (ops : List Steady.Op) (i : Nat) (h : (Steady.cancel (Steady.run L ops) i).2 = false) :
+    getTok (Steady.run L ops) i = none ∨
+    ∃ tok, getTok (Steady.run L ops) i = some tok ∧ (Tsvc.cancel (Steady.run L ops).s tok).2 = false ∧
+      (armState (Steady.run L ops).arms tok = some .started ∨ armState (Steady.run L ops).arms tok = some .cancelled) := by
+  have r := reach_run L ops
+  have hg : Gen.Timer.steadyCancelReportsSuppressed = true := by decide
+  unfold Steady.cancel at h
+  rw [hg] at h
+  cases ht : getTok (Steady.run L ops) i with
+  | none => exact Or.inl rfl
+  | some tok =>
+    right
+    simp only [Steady.cancelWith, ht, if_true, Bool.or_eq_false_iff, beq_eq_false_iff_ne, ne_eq] at h
+    obtain ⟨x, hx⟩ := armState_of_key _ tok (r.tk i tok ht)
+    refine ⟨tok, rfl, h.1, ?_⟩
+    rw [hx] at h ⊢
+    cases x with
+    | armed => exact absurd rfl h.2
+    | started => exact Or.inl rfl
+    | cancelled => exact Or.inr rfl
+
+/-- non-vacuity of ST1/ST2, the FC08b window: timer 1 (a plain one-shot) and the SteadyTimer wait (id 2) are collected together, handler
+1 is running, wait 2 sits in the loop's ready list: the service-level cancel fails, the repaired `cancel()` answers `true`, and the
+wrapper then does not call the handler; in the window where the handler has started `cancel()` answers `false` -/
+example :
+    let l := Steady.run ⟨100, 10, 86400000000000⟩ [.svc (.schedAt 0 1000000), .sat 0 0 1000000, .svc (.collect 1000000 false), .svc .hstart]
+    getTok l 0 = some 2 ∧ (Tsvc.cancel l.s 2).2 = false ∧ (Steady.cancel l 0).2 = true ∧
+    userStarted (Steady.trace ⟨100, 10, 86400000000000⟩ (Steady.cancel l 0).1 [.svc .hend, .svc .hstart]) = [] ∧
+    (Steady.cancel (Steady.runFrom ⟨100, 10, 86400000000000⟩ l [.svc .hend, .svc .hstart]) 0).2 = false := by decide
+
+/-- **On record (finding FC08b, repaired).** The unrepaired `cancel()` — the flag stored first, the answer the service-level answer alone
+(`cancelWith false`) — answers `false` in that window, and the user's handler never starts: "cancel = false" and the timer is silently
+dropped. -/
+theorem ST_legacy_cancel_witness :
+    let l := Steady.run ⟨100, 10, 86400000000000⟩ [.svc (.schedAt 0 1000000), .sat 0 0 1000000, .svc (.collect 1000000 false), .svc .hstart]
+    (Steady.cancelWith false l 0).2 = false ∧
+    userStarted (Steady.trace ⟨100, 10, 86400000000000⟩ (Steady.cancelWith false l 0).1 [.svc .hend, .svc .hstart, .svc .hend]) = [] := by decide
+
+end SteadyT
+
+/-! ### the periodic guard is read a few instructions before the handler is called (review 2, finding 5) -/
+
+section GuardWindow
+open Iora.Tsvc
+
+/-- **S3p, the clause at instruction granularity** for PERIODIC timers.  The stored function of a periodic timer is
+`if (!cancelFlag->load()) fn();`: the guard is read, THEN the user's handler is called.  The first-layer step `hstart` takes both as
+one atomic step.  At instruction granularity the clause "cancel = true ⇒ the handler never starts afterwards" needs: whenever the loop
+thread has read the guard of a waiting invocation as open, a `cancel(id)` that runs before `fn()` is entered must not answer `true`. -/
+def C08_S3p_statement : Prop :=
+  ∀ (L : Limits) (ops : List Tsvc.Op) (h : Hnd) (rest : List Hnd),
+    (Tsvc.run L ops).1.ready = h :: rest → (Tsvc.run L ops).1.inflight = none →
+    (h.guarded && (Tsvc.run L ops).1.closed.contains h.id) = false →      -- the loop thread reads the guard: open
+    (Tsvc.cancel (Tsvc.run L ops).1 h.id).2 = false                        -- … then no cancel may still succeed
+
+/-- **S3p refuted.** A periodic timer is collected; the loop thread reads its guard (open) and is descheduled before `fn()`; `cancel(1)`
+answers `true` (the periodic entry is there); the loop thread goes on and calls the handler. -/
+theorem C08_S3p_refuted : ¬ C08_S3p_statement := by
+  intro h
+  have := h ⟨100, 10, 86400000000000⟩ [.schedPer 0 5000000, .collect 5000000 false] ⟨1, 5000000, true, 1, 0, 5000000⟩ [] (by decide) (by decide) (by decide)
+  revert this
+  decide
+
+/-- **S3p, partial** = `S3_cancelled_never_starts`: with the guard read and the call of the user's handler taken as ONE step (the window is
+a handful of instructions on the loop thread; the real-time monitor RT3 allows 5 ms for it), after `cancel(id) = true` no handler of the
+id starts in any continuation. -/
+theorem C08_S3p_partial (L : Limits) (ops : List Tsvc.Op) (id : Nat) (rest : List Tsvc.Op)
+    (h : (Tsvc.cancel (Tsvc.run L ops).1 id).2 = true) :
+    ∀ e ∈ started (Tsvc.trace L (Tsvc.cancel (Tsvc.run L ops).1 id).1 rest), e.id ≠ id :=
+  S3_cancelled_never_starts L ops id rest h
+
+end GuardWindow
 
 end Iora.C08
